@@ -339,7 +339,12 @@ func doReplay(p *props.Property, path string) int {
 	}
 	var o *props.Outcome
 	var diverged string
-	attempts := 1
+	attempts := 3
+	if ff.Class == "biased-estimate" {
+		// If the code under test has found entropy the simulator does not own,
+		// a statistical verdict can differ between processes; try a few times.
+		attempts = 8
+	}
 	if ff.Class == "data-race" {
 		// See the note in batch(): the schedule replays exactly, the detector's
 		// memory of earlier accesses is lossy. Re-execute the identical schedule
